@@ -201,7 +201,8 @@ def directed_C18(tier, seed):
 
 SPECS = {
     "C11": dict(jobs=jobs_C11, clauses=QUERY_CLAUSES | TRUTH_CLAUSES, level="model_checking", k1=True),
-    "C12": dict(jobs=jobs_generic(COMPOSITE, "c12", 50, 500, W=2, alpha="xyz", multi=True),
+    "C12": dict(jobs=lambda tier, seed: jobs_generic(COMPOSITE, "c12", 50, 500, W=2, alpha="xyz", multi=True)(tier, seed)
+                + jobs_generic(COMPOSITE, "c12w1", 25, 250, n=4, W=1, alpha="xyz", multi=True)(tier, seed),     # 1-bit variables
                 clauses=QUERY_CLAUSES | TRUTH_CLAUSES | SPLIT_CLAUSES, level="model_checking", k1c=True),
     "C13": dict(jobs=lambda tier, seed: jobs_generic(REPL_EXACT, "c13", 40, 400, n=10, with_bool=True, pickle=True)(tier, seed)
                 + jobs_generic(APPROX, "c13a", 40, 400, n=4, alpha="approx", multi=True)(tier, seed)
